@@ -2,6 +2,7 @@
 package c09
 
 import (
+	"encoding/hex"
 	"encoding/json"
 	"fmt"
 	"math/rand"
@@ -24,6 +25,7 @@ type gcase struct {
 	Key   []int  `json:"key"`
 	Name  []int  `json:"name"`
 	Orig  bool   `json:"orig"`
+	Base  []int  `json:"base"`
 }
 
 func cpString(cps []int) string {
@@ -92,7 +94,7 @@ func ParseKind(kind, s string) (r presult) {
 
 // classes the property names explicitly as "is rejected"
 func explicitReject(class string) bool {
-	for _, p := range []string{"wrongcase", "mixedcase", "plugin_hrp", "plugin_native", "hrp_", "len", "padbits", "surplus", "space_in", "kelvin", "longs", "fullwidth", "doti", "sep_moved", "truncated", "extended", "empty", "only_sep", "no_sep", "short_data"} {
+	for _, p := range []string{"wrongcase", "mixedcase", "plugin_hrp", "plugin_native", "hrp_", "insert", "len", "padbits", "surplus", "space_in", "kelvin", "longs", "fullwidth", "doti", "sep_moved", "truncated", "extended", "empty", "only_sep", "no_sep", "short_data"} {
 		if strings.HasPrefix(class, p) {
 			return true
 		}
@@ -153,6 +155,10 @@ func intSet(xs []int) string {
 
 var charset = "qpzry9x8gf2tvdw0s3jn54khce6mua7l"
 
+// what gets inserted: ASCII blanks and controls, the Unicode blanks strings.TrimSpace knows, invisible characters, and
+// characters of the alphabet itself
+var insChars = []int{' ', '\t', '\n', '\r', 11, 12, 0, 0x85, 0xA0, 0x1680, 0x2000, 0x2028, 0x3000, 0xFEFF, 0x200B, 'q', 'p', 'Q', '1', '-'}
+
 func genCfg(mode string, seed int64, sub []int, alpha []int, maxName int, invs string) string {
 	return fmt.Sprintf(`SPECIFICATION Spec
 CONSTANTS
@@ -162,9 +168,10 @@ CONSTANTS
  SubChars = %s
  NameAlphabet = %s
  MaxName = %d
+ InsChars = %s
 INVARIANTS %s
 CHECK_DEADLOCK FALSE
-`, mode, seed%200, intSet(sub), intSet(alpha), maxName, invs)
+`, mode, seed%200, intSet(sub), intSet(alpha), maxName, intSet(insChars), invs)
 }
 
 func runGen(run *vk.Run, what, cfg string) {
@@ -206,6 +213,23 @@ func runGen(run *vk.Run, what, cfg string) {
 					sig = fmt.Sprintf("subst:%s:%s->%s", c.Kind, sigChar(b[j]), sigChar(rune(cp)))
 				}
 			}
+		} else if c.Class == "insert" {
+			base = cpString(c.Base)
+			b := []rune(base)
+			in := []rune(s)
+			j := 0
+			for j < len(b) && j < len(in) && in[j] == b[j] {
+				j++
+			}
+			where := "inside"
+			if j == 0 {
+				where = "front"
+			} else if j >= len(b) {
+				where = "behind"
+			}
+			if j < len(in) {
+				sig = fmt.Sprintf("insert:%s:%s:%s", c.Kind, where, sigChar(in[j]))
+			}
 		} else if strings.HasPrefix(c.Class, "plugin") {
 			sig = c.Class + ":" + c.Kind + ":" + s
 		}
@@ -235,6 +259,7 @@ func Run(tier string) {
 	}
 	sub = append(sub, '1', 'b', 'i', 'o', 'A', 'Q', 'K', 'S', '-', ' ', 127, 0, 16, 18, 25, 10, 8490, 383, 304, 65345, 233, 0x80, 0xff)
 	runGen(run, "subst", genCfg("subst", seed, sub, nil, 0, "Emit SubstRejected RoundTripKey"))
+	runGen(run, "insert", genCfg("insert", seed, nil, nil, 0, "Emit InsertRejected"))
 	runGen(run, "variants", genCfg("variants", seed, nil, nil, 0, "Emit"))
 	alpha := []int{'a', 'Z', '7', '+', '-', '.', '_', '/', '\\', '!', '~', '%'}
 	runGen(run, "plugin", genCfg("plugin", seed, nil, alpha, run.Pick(2, 3), "Emit"))
@@ -284,9 +309,39 @@ func roundTrips(run *vk.Run, rng *rand.Rand) {
 		k[b/8] = 1 << (b % 8)
 		keys = append(keys, k)
 	}
+	// the values a curve implementation treats specially: 0, 1, the points of order 8, p-1, p, p+1 (p = 2^255-19), the
+	// same with the top bit set, 2^255-1, 2^255
+	for _, h := range []string{
+		"0100000000000000000000000000000000000000000000000000000000000000",
+		"e0eb7a7c3b41b8ae1656e3faf19fc46ada098deb9c32b1fd866205165f49b800",
+		"5f9c95bca3508c24b1d0b1559c83ef5b04445cc4581c8e86d8224eddd09f1157",
+		"ecffffffffffffffffffffffffffffffffffffffffffffffffffffffffffff7f",
+		"edffffffffffffffffffffffffffffffffffffffffffffffffffffffffffff7f",
+		"eeffffffffffffffffffffffffffffffffffffffffffffffffffffffffffff7f",
+		"ecffffffffffffffffffffffffffffffffffffffffffffffffffffffffffffff",
+		"edffffffffffffffffffffffffffffffffffffffffffffffffffffffffffffff",
+		"ffffffffffffffffffffffffffffffffffffffffffffffffffffffffffffff7f",
+		"0000000000000000000000000000000000000000000000000000000000000080",
+		"0100000000000000000000000000000000000000000000000000000000000080",
+	} {
+		k, _ := hex.DecodeString(h)
+		keys = append(keys, k)
+	}
 	n := run.Pick(2000, 20000)
 	for i := 0; i < n; i++ {
 		keys = append(keys, randKey(rng))
+	}
+	// every 32-byte value is a key with exactly one spelling, on the recipient side too (recipients need not be derived
+	// from an identity: plugin.EncodeX25519Recipient prints any public key)
+	for _, k := range keys {
+		rs, _ := strings32(k)
+		rr, err := age.ParseX25519Recipient(rs)
+		run.Eval(1)
+		if err != nil {
+			run.Violation("C09:roundtrip:recipient-value", fmt.Sprintf("the recipient string %q of the 32-byte value %x does not parse: %v", rs, k, err), nil)
+		} else if rr.String() != rs {
+			run.Violation("C09:roundtrip:recipient-value", fmt.Sprintf("the recipient string %q of %x prints back as %q", rs, k, rr.String()), nil)
+		}
 	}
 	for _, k := range keys {
 		id, err := age.ParseX25519Identity(mustI(k))
